@@ -35,7 +35,8 @@ def gen_str(rng):
                        'line\nbreak', '!units[5 gram]', '!units[nan gram]', '!ProcessSerializer', 's%d' % rng.randint(0, 9)])
 
 
-UNITS = ['gram', 'milligram', 'millimolar', 'femtogram / micrometer ** 3', 'second', '1 / second']
+UNITS = ['gram', 'milligram', 'millimolar', 'nanometer', 'nanomolar / second', 'femtogram / micrometer ** 3',
+         'second', '1 / second']
 
 
 def gen_leaf(rng):
@@ -59,7 +60,7 @@ def gen_leaf(rng):
                           ['float', float('nan').hex()], ['float', (1e-300).hex()], ['float', (1e300).hex()]])
         return ['qty', mag, rng.choice(UNITS)]
     if k < 0.89:
-        return ['unit', rng.choice(UNITS[:5])]
+        return ['unit', rng.choice(UNITS[:7])]
     if k < 0.92:
         return ['proc', rng.randint(0, 3)]
     if k < 0.94:
@@ -323,7 +324,7 @@ def canon_table(bodies):
     tab = []
     for b in sorted(bodies):
         try:
-            if b.startswith('nan'):
+            if b == 'nan' or b.startswith('nan '):
                 key = 'nan ' + b[3:].lstrip()
                 tab.append((key, str(units('1' + b[3:]).units)))
             else:
